@@ -14,6 +14,14 @@ DOTTED = ["np.ndarray", "tf.data.Dataset", "collections.OrderedDict"]
 MORE_DOCS = DOCS + ["the beta weight", "weight decay factor", "an output folder", "kept for later"]
 # descriptions carrying an ad-hoc type trigger of parse_adhoc_doc_for_typ (outside the domain; separate stream)
 TRIGGER_DOCS = ["Number of items", "path to the file", "size of each batch", "name of dataset", "True to shuffle"]
+# descriptions with the punctuation the format-level parsers use as separators (commas — one, several, trailing —, colons, semicolons,
+# " - ", parentheses, "->", "=", quotes, "/"); free of default announcements and ad-hoc type triggers (checked against the real
+# extract_default / parse_adhoc_doc_for_typ: the docstring-layer hypotheses hold on them)
+PUNCT_DOCS = ["Train, validation and tests dataset splits.", "Alpha, beta and gamma weights", "Weights for alpha, beta, gamma, in that order",
+              "The ratio: kept between runs", "First pass; second pass kept", "Upper bound - kept between runs", "The weight (kept between runs)",
+              "Maps alpha -> beta weights", "Uses alpha = beta weights", "The 'alpha' weight kept", 'The "beta" weight kept', "Kept between runs,",
+              "A value, kept; see (alpha) - beta: gamma", "Ratio of a/b, then c", "Kept as-is, e.g. between runs", "Either alpha, or beta",
+              "One of: alpha, beta", "Kept, then dropped", "(kept) between runs", "Kept; dropped"]
 INTS = [0, 0, 1, 5, -3, 42, 100, 2]
 FLOATS = [0.0, 0.0, 0.5, 1.0, -2.5, 0.001, 3.14]
 STRS = ["", "", "mnist", "foo", "bar baz", "a_b", "~/data", "x", "None0"]
@@ -75,7 +83,8 @@ def gen_default(r, typ, kind, bases, none_ok=True, p_falsy=0.45):
     return None
 
 
-def gen_ir(r, nparams=None, with_return=None, ret_default=None, with_doc=True, kinds=None, none_ok=True, name="F", p_falsy=0.45, ftype="static", trigger_docs=False):
+def gen_ir(r, nparams=None, with_return=None, ret_default=None, with_doc=True, kinds=None, none_ok=True, name="F", p_falsy=0.45, ftype="static", trigger_docs=False, punct=0.0):
+    """`punct` = probability that a description (parameter or return entry) comes from PUNCT_DOCS"""
     n = r.randint(0, 5) if nparams is None else nparams
     names = r.sample(NAMES, n)
     params = OrderedDict()
@@ -84,7 +93,7 @@ def gen_ir(r, nparams=None, with_return=None, ret_default=None, with_doc=True, k
         typ, kind, bases = gen_typ(r, kinds)
         p = OrderedDict()
         if with_doc if isinstance(with_doc, bool) else r.random() < with_doc:
-            p["doc"] = r.choice(TRIGGER_DOCS if trigger_docs and r.random() < 0.5 else MORE_DOCS)
+            p["doc"] = r.choice(PUNCT_DOCS if r.random() < punct else TRIGGER_DOCS if trigger_docs and r.random() < 0.5 else MORE_DOCS)
         p["typ"] = typ
         if i >= first_default:
             d = gen_default(r, typ, kind, bases, none_ok, p_falsy)
@@ -101,7 +110,7 @@ def gen_ir(r, nparams=None, with_return=None, ret_default=None, with_doc=True, k
         typ, kind, bases = gen_typ(r, kinds)
         rt = OrderedDict()
         if with_doc:
-            rt["doc"] = r.choice(MORE_DOCS)
+            rt["doc"] = r.choice(PUNCT_DOCS if r.random() < punct else MORE_DOCS)
         rt["typ"] = typ
         if ret_default if ret_default is not None else r.random() < 0.5:
             # the IR convention (all mocks): a return entry's default is the *source* of the returned expression
